@@ -23,7 +23,7 @@ FLOOR = {"quick": 1500, "thorough": 25000}
 
 
 def plan(tier, seed):
-    per = 110 if tier == "quick" else 1700
+    per = 200 if tier == "quick" else 2200
     return [{"n": per} for _ in range(16)]
 
 
